@@ -87,7 +87,7 @@ def c08(tier, seed):
                "op_bpv_arith::<%s, %d, %d, %d, %d, %s>()" % (cs, U, 272 + 32 * U, R1, R2, LN), "PP",
                dict(entry="blind_proof_verify", part="arithmetic before prepare_parameters", suite=sk_, U=U, R1=R1, R2=R2, L=("None" if LN == "true" else "any usize")))
     # blind_proof_verify index handling with concrete L: (U, L, shape1, shape2, n1, n2)
-    bpv = [(1, 0, 0, 0, 0, 0), (1, 1, 0, 5, 0, 2), (2, 1, 0, 2, 0, 2), (2, 2, 2, 0, 2, 0)]
+    bpv = [(1, 0, 0, 0, 0, 0), (1, 1, 0, 5, 0, 2), (2, 1, 0, 2, 0, 2), (2, 2, 2, 0, 2, 0), (2, 2, 5, 2, 2, 2), (2, 1, 1, 2, 1, 2)]
     if th:
         bpv += [(2, 0, 0, 2, 0, 2), (2, 2, 3, 0, 2, 0), (1, 0, 0, 4, 0, 2), (3, 2, 2, 2, 2, 2)]
     for (U, LC, I1, I2, N1, N2) in bpv:
@@ -108,7 +108,7 @@ def c08(tier, seed):
             op("verify_blind_sign_%s_L%d_M%d_%s" % (sk_, L, M, UB[0]), "op_verify_blind_sign::<%s, %d, %d, %s>()" % (cs, L, M, UB), "G",
                dict(entry="verify_blind_sign", suite=sk_, L=L, M=M, blind_factor=UB))
     for n in ([1, 47, 48, 79, 112, 144] + ([113, 143, 145, 176] if th else [])):
-        for Gn in ([0, 1, 2, 3] if th else pick(seed, "dcG%d" % n, [0, 1, 2, 3], 2)):
+        for Gn in ([0, 1, 2, 3] if (th or n >= 112) else pick(seed, "dcG%d" % n, [0, 1, 2, 3], 2)):
             for sk_, cs in one_suite(tier, seed, "c08dc%d" % n):
                 op("deser_commit_%s_len%d_G%d" % (sk_, n, Gn), "op_deser_commit::<%s, %d, %d>()" % (cs, n, Gn), "G",
                    dict(entry="deserialize_and_validate_commit", suite=sk_, len=n, blind_generators=Gn))
@@ -182,11 +182,55 @@ def c01(tier, seed):
         shapes = [(L, H, "false", (L + H) % 3) for L in range(0, 4) for H in range(0, 4)] + [(0, 0, "true", 0), (0, 3, "true", 0)]
     for (L, H, MN, ML) in shapes:
         for sk_, cs in suites(tier, seed, "c01"):
-            S.append(Spec("c01_sign_%s_L%d_h%d_%s" % (sk_, L, H, MN[0]), "c01::sign_contract::<%s, %d, %d, %s, %d>()" % (cs, L, H, MN, ML), 100, "G", "A",
-                          shape=dict(contract="sign", suite=sk_, L=L, header_shape=H, msgs_none=MN, msg_len_offset=ML), replay="alg"))
-            S.append(Spec("c01_verify_%s_L%d_h%d_%s" % (sk_, L, H, MN[0]), "c01::verify_contract::<%s, %d, %d, %s, %d>()" % (cs, L, H, MN, ML), 100, "G", "A",
-                          shape=dict(contract="verify", suite=sk_, L=L, header_shape=H, msgs_none=MN, msg_len_offset=ML), replay="alg"))
+            for kind in ("sign", "verify"):
+                S.append(Spec("c01_%s_%s_L%d_h%d_%s" % (kind, sk_, L, H, MN[0]), "p01::%s_contract::<%s, %d, %d, %s, %d>()" % (kind, cs, L, H, MN, ML), 100, "G", "A",
+                              shape=dict(contract=kind, suite=sk_, L=L, header_shape=H, msgs_none=MN, msg_len_offset=ML), replay="alg", features="prog"))
     return S
 
 
-PROPS = {"C01": c01, "C08": c08, "C09": c09}
+def c10(tier, seed):
+    S = []
+    th = tier == "thorough"
+    U = 120
+
+    def u(name, call, shape, unwind=U):
+        S.append(Spec("c10_" + name, "c10::" + call, unwind, "none", "A", shape=shape, replay="alg"))
+
+    u("i2osp8_full", "i2osp8_full()", dict(unit="i2osp::<8>", x="any usize"), 20)
+    u("i2osp2_full", "i2osp2_full()", dict(unit="i2osp::<2>", x="any usize <= 65535"), 20)
+    for sk_, cs in suites(tier, seed, "c10"):
+        for (ml, dl) in [(0, 0), (1, 3), (3, 40), (2, 255), (2, 256)] + ([(8, 100), (33, 255), (7, 254), (1, 300)] if th else []):
+            u("h2s_%s_m%d_d%d" % (sk_, ml, dl), "h2s_match::<%s, %d, %d>()" % (cs, ml, dl), dict(unit="hash_to_scalar", suite=sk_, msg_len=ml, dst_len=dl), max(U, dl // 8 + 60))
+        for (ikm, ki, kd) in [(31, 0, 0), (32, 0, 0), (32, 1, 1), (33, 2, 2), (32, 3, 0), (0, 0, 0)] + ([(34, 3, 2), (64, 0, 0), (32, 0, 1), (32, 2, 1), (16, 1, 1)] if th else []):
+            u("keygen_%s_ikm%d_ki%d_kd%d" % (sk_, ikm, ki, kd), "keygen_match::<%s, %d, %d, %d>()" % (cs, ikm, ki, kd),
+              dict(unit="KeyGen/SkToPk", suite=sk_, ikm_len=ikm, key_info_shape=ki, key_dst_shape=kd))
+        u("keygen_limits_%s" % sk_, "keygen_limits::<%s>()" % cs, dict(unit="KeyGen", suite=sk_, key_info_len=65536))
+        for (n, api) in [(0, 0), (1, 0), (2, 0), (2, 1), (1, 2), (1, 3), (1, 4)] + ([(3, 0), (3, 1), (2, 2), (2, 3), (2, 4), (4, 0)] if th else []):
+            u("gens_%s_n%d_api%d" % (sk_, n, api), "gens_match::<%s, %d, %d>()" % (cs, n, api), dict(unit="create_generators", suite=sk_, count=n, api_id_shape=api))
+        for (k1, k2) in [(1, 2), (2, 1), (1, 1)] + ([(2, 3), (0, 2), (3, 1)] if th else []):
+            u("gens_history_%s_%d_%d" % (sk_, k1, k2), "gens_history::<%s, %d, %d>()" % (cs, k1, k2), dict(unit="create_generators twice", suite=sk_, first=k1, second=k2))
+        for (ml, bl) in [(0, "false"), (1, "true"), (2, "false")] + ([(3, "true"), (8, "false"), (32, "true")] if th else []):
+            u("m2s_%s_m%d_%s" % (sk_, ml, bl[0]), "m2s_match::<%s, %d, %s>()" % (cs, ml, bl), dict(unit="messages_to_scalar", suite=sk_, msg_len=ml, blind_api=bl))
+        for m1 in [0, 1, 2] + ([3] if th else []):
+            u("blind_challenge_%s_g%d" % (sk_, m1), "blind_challenge_match::<%s, %d>()" % (cs, m1), dict(unit="calculate_blind_challenge", suite=sk_, generators=m1))
+    return S
+
+
+def c12(tier, seed):
+    S = []
+    th = tier == "thorough"
+    # (n, update_index, k, old_len, new_len) with k > 0 meaning update_index = usize::MAX - (k - 1)
+    ups = [(1, 0, 0, 1, 1), (2, 0, 0, 1, 2), (2, 1, 0, 2, 1), (3, 2, 0, 0, 1), (3, 1, 0, 1, 0), (1, 1, 0, 1, 1), (2, 2, 0, 1, 1), (3, 3, 0, 1, 1),
+           (0, 0, 0, 1, 1), (2, 0, 1, 1, 1), (3, 0, 2, 1, 1)]
+    if th:
+        ups += [(3, 0, 0, 2, 2), (4, 3, 0, 1, 1), (4, 0, 0, 1, 2), (4, 2, 0, 2, 1), (4, 4, 0, 1, 1), (5, 4, 0, 1, 1), (5, 5, 0, 1, 1), (1, 0, 1, 1, 1), (0, 0, 1, 1, 1), (4, 7, 0, 1, 1), (1, 0, 0, 0, 2), (1, 0, 0, 2, 0)]
+    for (N, UI, K, OL, NL) in ups:
+        for sk_, cs in (suites(tier, seed, "c12") if th else one_suite(tier, seed, "c12%d%d%d" % (N, UI, K))):
+            nm = ("max%d" % (K - 1)) if K else str(UI)
+            S.append(Spec("c12_update_%s_n%d_ui%s_o%d_w%d" % (sk_, N, nm, OL, NL), "c12::update_contract::<%s, %d, %d, %d, %d, %d>()" % (cs, N, UI, K, OL, NL), 120, "G", "A",
+                          shape=dict(contract="update_signature one-step", entry="update_signature", suite=sk_, n=N, update_index=("usize::MAX-%d" % (K - 1)) if K else UI, old_len=OL, new_len=NL), replay="op",
+                          covers_required=(K == 0 and UI < N)))
+    return S
+
+
+PROPS = {"C01": c01, "C08": c08, "C09": c09, "C10": c10, "C12": c12}
